@@ -1,5 +1,10 @@
 # per-property configuration of bin/check
 PROPS = {
+ "C10": {"shrink_header": None, "kind_tokens": 2,
+  "rule": "10 fft packages x logn 0..10 (thorough 13/14) x DIF/DIT x coset x precompute x custom shift x nbTasks in {default,1,2,3,5,8,16,64,511,512}; all basis vectors for logn<=3 (thorough 5) + random/sparse/extreme vectors; fft, inv, roundtrip, rtinv; table-less domains reaching the 32/256 kernels at stage 3; BitReverse 0..9 (thorough 12, cobra 2^21..2^23 by digest); domain constants for m in boundary lattice incl. 2^s, 2^s+1 (panic), 2^63+1; WriteTo bytes; ReadFrom on valid/truncated/out-of-range/continued streams through readers of every chunk size; malformed lines; distinct = distinct op lines",
+  "trusted": ["tools/harness/c10.go + c10_fields.go (line carries q, omega, shift taken from the real package; executor re-checks them)", "Model/FFT.lean is a hand model (tie = K only)", "ZM q -> ZMod q transport is proved (C10_driver_instance)",
+              "modelled not verified: goroutine scheduling / parallel.Execute partitioning (covered by the nbTasks sweep only); assembly FFT kernels (koalabear/babybear AVX-512: not executable on this CPU)"],
+  "assumptions": ["PrimRoot gen m (w^(2^(m-1)) = -1) - checked per size by op `C10 domain ... ord` and reduced to the 2-adic root constant by C10_generator_order", "len(a) = Cardinality"]},
  "C09": {
   "kind_tokens": 3, "configs": ["default", "noadx", "purego"],
   "rule": "the C01 op lines (all 23 fields; mul/square/add/sub/double/neg/halve/butterfly/small multiples on the boundary lattice and random operands; vector add/sub/mul/scalarmul/sum/innerproduct of every length 0..4*16+5 (thorough 8*16+7) plus lengths around 112/128/256/1024, sub-slice offsets 1 and 3) are answered by three configurations {default assembly, ADX/BMI2 disabled through the cpu-switch overlay, -tags purego}; each configuration's stream is diffed against the same Lean model stream; distinct = distinct op lines",
